@@ -14,10 +14,53 @@ from . import ext
 
 class CallMixin:
 
+    def _anyall_loop(self, node):
+        """any(f(x) for x in it)  ==  for x in it: if f(x): result = True; break   (the calls may have effects)"""
+        tree = getattr(node, '_desugared', None)
+        is_any = node.func.id == 'any'
+        var = f'__{node.func.id}_{node.lineno}_{node.col_offset}'
+        if tree is None:
+            g = node.args[0].generators[0]
+            test = node.args[0].elt if is_any else ast.UnaryOp(op=ast.Not(), operand=node.args[0].elt)
+            hit = [ast.Assign(targets=[ast.Name(id=var, ctx=ast.Store())], value=ast.Constant(value=is_any)), ast.Break()]
+            body = [ast.If(test=test, body=hit, orelse=[])]
+            for cond in reversed(g.ifs):
+                body = [ast.If(test=cond, body=body, orelse=[])]
+            loop = ast.For(target=g.target, iter=g.iter, body=body, orelse=[])
+            init = ast.Assign(targets=[ast.Name(id=var, ctx=ast.Store())], value=ast.Constant(value=not is_any))
+            tree = [init, loop]
+            for t in tree:
+                ast.copy_location(t, node)
+                ast.fix_missing_locations(t)
+                for n in ast.walk(t):
+                    for ch in ast.iter_child_nodes(n):
+                        ch._parent = n
+            fi = self.prog.node_owner.get(id(node))
+            if fi is not None:
+                for t in tree:
+                    for n in ast.walk(t):
+                        self.prog.node_owner.setdefault(id(n), fi)
+            node._desugared = tree
+        fr = self.frames[-1]
+        saved = {n.id: fr.locals[n.id] for n in ast.walk(node.args[0].generators[0].target)
+                 if isinstance(n, ast.Name) and n.id in fr.locals}
+        self.exec_block(tree)
+        r = fr.locals.pop(var, ConstV(not is_any))
+        for n in ast.walk(node.args[0].generators[0].target):
+            if isinstance(n, ast.Name):
+                fr.locals.pop(n.id, None)
+        fr.locals.update(saved)
+        return r
+
     def ex_Call(self, node):
         # super() needs the frame
         if isinstance(node.func, ast.Name) and node.func.id == 'super':
             return self._super(node)
+        if isinstance(node.func, ast.Name) and node.func.id in ('any', 'all') and len(node.args) == 1 and not node.keywords \
+                and isinstance(node.args[0], (ast.GeneratorExp, ast.ListComp)) and len(node.args[0].generators) == 1 \
+                and not self.nofork and any(isinstance(n, ast.Call) for n in ast.walk(node.args[0].elt)) \
+                and not any(node.func.id in f.locals for f in self.frames[-1:]):
+            return self._anyall_loop(node)
         fv = self.eval(node.func)
         args = []
         for a in node.args:
@@ -179,6 +222,11 @@ class CallMixin:
         elif isinstance(recv, SuperV):
             # method of an external base class (object.__init__, Exception.__init__ ...)
             self.event('super-ext-call', node, name=name, args=args)
+            ext_bases = [b for b in recv.cls.external_bases() if b not in ('object', 'builtins.object')]
+            if name == '__init__' and len(ext_bases) == 1 and recv.obj is not None and not self.is_exception_class(recv.cls):
+                # constructing the external base part of the object: the same event as a direct construction
+                self.event('ext-call', node, callee=ext_bases[0], args=list(args), kwargs=dict(kwargs), result=recv.obj,
+                           via_super=True)
             return ConstV(None)
         elif isinstance(recv, ext.StructV):
             if name == 'pack':
@@ -209,6 +257,11 @@ class CallMixin:
             return r
         if isinstance(recv, UnkV):
             return UnkV(f'method {name} of unknown')
+        if isinstance(recv, ObjV) and [b for b in recv.cls.external_bases() if b not in ('object', 'builtins.object')]:
+            # inherited from an external base class: an opaque call on this object
+            r = SymV(self.fresh(name), 'ext', origin=('method', recv, name, args, kwargs))
+            self.event('method', node, recv=recv, name=name, args=args, kwargs=kwargs, result=r)
+            return r
         if isinstance(recv, IterV) and name in ('__next__',):
             return recv.elem
         self.note_unknown(node, f'method {name} of {recv!r}')
@@ -861,6 +914,25 @@ def b_anyall(it, args, kwargs, node):
     return ConstV(it._fact_fork('any/all', node, arg=args[0]))
 
 
+def b_map(it, args, kwargs, node):
+    if len(args) == 2 and not kwargs:
+        return it.call_function(it.an.prog.synthetic('map1'), list(args), {}, node=node)
+    it.note_unknown(node, 'map() with several iterables')
+    return IterV(UnkV('map'), desc='map')
+
+
+def b_filter(it, args, kwargs, node):
+    f = it.resolve(args[0]) if args else None
+    if len(args) == 2 and not (isinstance(f, ConstV) and f.value is None):
+        return it.call_function(it.an.prog.synthetic('filter1'), list(args), {}, node=node)
+    it.note_unknown(node, 'filter(None, ...)')
+    return IterV(UnkV('filter'), desc='filter')
+
+
+def b_object(it, args, kwargs, node):
+    return SymV(it.fresh('object'), 'sentinel')
+
+
 def b_iter(it, args, kwargs, node):
     if len(args) == 2:
         # iter(callable, sentinel): analysed through its python-level model (a generator)
@@ -939,6 +1011,6 @@ BUILTINS = {
     'enumerate': b_enumerate, 'zip': b_zip, 'sum': b_sum, 'divmod': b_divmod, 'list': b_list, 'dict': b_dict,
     'tuple': b_tuple, 'print': b_print, 'open': b_open, 'vars': b_vars, 'min': b_minmax('min'),
     'max': b_minmax('max'), 'bool': b_bool, 'slice': b_slice, 'type': b_type, 'hex': b_hex, 'abs': b_abs,
-    'any': b_anyall, 'all': b_anyall, 'iter': b_iter, 'next': b_next, 'repr': b_repr, 'set': b_set,
+    'any': b_anyall, 'all': b_anyall, 'iter': b_iter, 'object': b_object, 'map': b_map, 'filter': b_filter, 'next': b_next, 'repr': b_repr, 'set': b_set,
     'reversed': b_reversed, 'ord': b_ord, 'chr': b_chr, 'id': b_id, 'frozenset': b_set,
 }
